@@ -266,6 +266,34 @@ pub fn prefix_case(mut idx: u64) -> String {
     String::new()
 }
 
+/// Whole-file variants of every seed program: byte order mark, line-ending conventions, the
+/// lexer's less common whitespace characters as separators, pragma lines under each line ending.
+pub const FILE_VARIANTS: u64 = 12;
+
+pub fn file_variant_count() -> u64 {
+    seed_programs().len() as u64 * FILE_VARIANTS
+}
+
+pub fn file_variant_case(idx: u64) -> String {
+    let seeds = seed_programs();
+    let p = &seeds[(idx / FILE_VARIANTS) as usize % seeds.len()];
+    let crlf = p.replace('\n', "\r\n");
+    match idx % FILE_VARIANTS {
+        0 => format!("{}{p}", '\u{feff}'),
+        1 => crlf,
+        2 => format!("{}{crlf}", '\u{feff}'),
+        3 => p.replace('\n', "\r"),
+        4 => format!("{crlf}pragma a b\r\n#pragma c d\r\nint z_after_pragma;\r\n"),
+        5 => format!("pragma first\r\n{p}"),
+        6 => p.replace(' ', "\u{000B}"),
+        7 => p.replace(' ', "\u{000C}"),
+        8 => p.replace('\n', "\u{0085}"),
+        9 => p.replace(' ', "\u{2028}").replace('\n', "\u{2029}"),
+        10 => p.replace(' ', "\u{200E} \u{200F}"),
+        _ => format!("{p}{}", '\u{feff}'),
+    }
+}
+
 /// Nesting bombs up to the nesting bound of DESIGN.md (256).
 pub fn nesting_bomb(r: &mut Rng) -> String {
     let depth = match r.below(4) {
